@@ -46,9 +46,23 @@ ODD_TEXT = ["a,b", "x=y", "it's", 'say "hi"', "50/50", "(big)", "tab\there", "é
 _NAKED = re.compile(r"[^\"',:=/(){}\s]([^\"',:=/(){}\n\r]*[^\"',:=/(){}\s])?")
 
 
+# unit names as the documentation lists them (its list is generated from the unit table, so this is a SNAPSHOT of the
+# pinned commit's table, not read from units.py at run time: a name that silently drops out of the live table is still
+# generated, and then no longer compiles to what the reference prescribes)
+DOCUMENTED_UNITS = ["g", "gram", "grams", "kg", "kilo", "kilos", "kilogram", "kilograms", "lb", "lbs", "pound",
+                    "pounds", "oz", "ozs", "ounce", "ounces", "l", "litre", "ml", "mill", "mills",
+                    "milliliter", "milliliters", "tsp", "tsps", "teaspoons", "teaspoon", "tea spoon",
+                    "tea spoons", "tbsp", "tbsps", "tablespoon", "tablespoons", "table spoon", "table spoons",
+                    "cup", "cups", "pint", "pints", "clove", "cloves", "bulb", "bulbs", "can", "cans", "tin",
+                    "tins", "pinch", "pinches", "knob", "knobs", "packet", "packets", "pack", "packs", "box",
+                    "boxes", "boxen", "bag", "bags", "sack", "sacks", "sachet", "sachets", "rasher", "rashers",
+                    "strip", "strips"]
+
+
 def unit_names() -> List[str]:
     from recipe_grid.units import UNIT_SYSTEM
-    return list(UNIT_SYSTEM.iter_names())
+    live = list(UNIT_SYSTEM.iter_names())
+    return live + [u for u in DOCUMENTED_UNITS if u not in live]
 
 
 def dangerous_first_words() -> set:
@@ -472,6 +486,14 @@ class ProgramGen:
                     nm = self.name(1.0)
                     tries += 1
                 outs.append(nm)
+            if rng.random() < 0.06:
+                # an output name written with blanks around it (inside quotes / braces): matched ignoring them, but KEPT
+                # as written in the compiled sub recipe's output names
+                o = list(rng.choice(outs))
+                if isinstance(o[0], str) and isinstance(o[-1], str):
+                    o[0] = rng.choice([" ", "  ", "\t"]) + o[0]
+                    o[-1] = o[-1] + rng.choice([" ", "\t", " \t "])
+                    outs[[self.key(x) for x in outs].index(self.key(o))] = o
             if rng.random() < 0.04 and isinstance(outs[0][0], str) and outs[0][0].lower() != outs[0][0].upper():
                 # the same name twice in ONE statement, differing only in letter case / surrounding blanks:
                 # must be rejected as a redefinition (names are unique ignoring case)
